@@ -22,9 +22,11 @@ import (
 	"fmt"
 	"reflect"
 	"runtime"
+	"runtime/debug"
 	"strconv"
 	"strings"
 	"sync"
+	"sync/atomic"
 	"time"
 	"unsafe"
 
@@ -625,7 +627,70 @@ func runScen(sc *scen) string {
 
 var scenCount int
 
+// runStress: a real-scheduler stress line (oracle-only, not monitored): `pools` fresh pools of size n; on each, k
+// goroutines are released from a spin barrier and Send one task each; the handlers keep a running counter. Runs with 4 Ps
+// (the rest of the harness uses one) and with the GC off, which under faketime can livelock with several Ps.
+func runStress(n, k, pools int) string {
+	oldP := runtime.GOMAXPROCS(4)
+	defer runtime.GOMAXPROCS(oldP)
+	oldGC := debug.SetGCPercent(-1)
+	defer debug.SetGCPercent(oldGC)
+	over, maxAll, bad := 0, int32(0), 0
+	for p := 0; p < pools; p++ {
+		pool := ants.NewPool(ants.WithSize(n))
+		var running, maxr, ready int32
+		handler := func(ctx context.Context) (any, error) {
+			cur := atomic.AddInt32(&running, 1)
+			for {
+				m := atomic.LoadInt32(&maxr)
+				if cur <= m || atomic.CompareAndSwapInt32(&maxr, m, cur) {
+					break
+				}
+			}
+			time.Sleep(1000)
+			atomic.AddInt32(&running, -1)
+			return 1, nil
+		}
+		tasks := make([]ants.Task, k)
+		var wg sync.WaitGroup
+		for i := 0; i < k; i++ {
+			wg.Add(1)
+			go func() {
+				defer wg.Done()
+				atomic.AddInt32(&ready, 1)
+				for atomic.LoadInt32(&ready) < int32(k) {
+					runtime.Gosched()
+				}
+				tasks[i] = pool.Send(handler, ants.WithDiscardOnBusy(false))
+			}()
+		}
+		wg.Wait()
+		for _, t := range tasks {
+			if v, err := t.Get2(); err != nil || v != 1 {
+				bad++
+			}
+		}
+		if m := atomic.LoadInt32(&maxr); int(m) > n {
+			over++
+			if m > maxAll {
+				maxAll = m
+			}
+		} else if m > maxAll {
+			maxAll = m
+		}
+		stopPool(pool)
+	}
+	return fmt.Sprintf("stress n=%d k=%d pools=%d over=%d bad=%d max=%d", n, k, pools, over, bad, maxAll)
+}
+
 func exec(c *hx.Ctx, line string) string {
+	if strings.HasPrefix(line, "stress ") {
+		var n, k, pools int
+		if _, err := fmt.Sscanf(line, "stress %d %d %d", &n, &k, &pools); err != nil || n < 1 || k < 1 || pools < 1 {
+			return "bad-script stress"
+		}
+		return runStress(n, k, pools)
+	}
 	sc, err := parseScen(line)
 	if err != nil {
 		return "bad-script " + err.Error()
